@@ -384,12 +384,20 @@ class Gen:
                 alts = [m for m in s[comb] if alive(m)]
                 if not alts:
                     raise GenFail("no alternative")
-                return self._value(rng.choice(alts), depth, version)
+                for _ in range(8):
+                    v = self._value(rng.choice(alts), depth, version)
+                    if version is not None or self.spec.conforms(s, lower_json(v)):
+                        return v
+                raise GenFail("ambiguous alternatives")
         if "allOf" in s:
             alts = [m for m in s["allOf"] if alive(m)]
             if not alts:
                 return rng.choice(["x", 1])
-            return self._value(alts[0], depth, version)
+            for _ in range(8):
+                v = self._value(alts[0], depth, version)
+                if version is not None or self.spec.conforms(s, lower_json(v)):
+                    return v
+            raise GenFail("allOf")
         t = s.get("type")
         if t == "string":
             return self._string(s)
@@ -406,8 +414,8 @@ class Gen:
             n = rng.randint(lo, hi)
             if isinstance(it, list):
                 return [self._value(it[i] if i < len(it) else {"type": "number"}, depth + 1, version) for i in range(n)]
-            if depth > 3 and is_block(self.res(it)):
-                n = min(n, lo)
+            if is_block(self.res(it)):
+                n = min(n, lo) if depth > 7 else min(rng.randint(max(lo, 1), 3 if depth < 4 else 2), s.get("maxItems", 9))
             return [self._value(it, depth + 1, version) for _ in range(n)]
         if t == "object":
             return self._object(s, depth, version)
@@ -426,19 +434,24 @@ class Gen:
             return d
         req = s.get("required", [])
         keys = [k for k in props if k != "__type__"]
-        p = 0.5 if depth == 0 else 0.35 if depth < 3 else 0.12
+        p = 0.5 if depth == 0 else 0.3 if depth < 5 else 0.15
         for k in keys:
             sub = props[k]
-            if k not in req and rng.random() > p:
+            rs0 = self.res(sub)
+            heavy0 = is_block(rs0) or is_block(self.res(rs0.get("items", {})) if isinstance(rs0.get("items"), dict) else {}) \
+                or any(is_block(self.res(m)) for comb in ("allOf", "oneOf", "anyOf") for m in rs0.get(comb, []) if isinstance(m, dict))
+            if k not in req and not heavy0 and rng.random() > p:
                 continue
             if version is not None and not in_range(self.res(sub), version):
                 continue
             rs = self.res(sub)
-            heavy = is_block(rs) or is_block(self.res(rs.get("items", {})) if isinstance(rs.get("items"), dict) else {})
-            if heavy and depth >= 4:
-                continue
+            heavy = is_block(rs) or is_block(self.res(rs.get("items", {})) if isinstance(rs.get("items"), dict) else {}) \
+                or any(is_block(self.res(m)) for comb in ("allOf", "oneOf", "anyOf") for m in rs.get(comb, []) if isinstance(m, dict))
+            if heavy:
+                if depth >= 8 or (k not in req and rng.random() > (0.75 if depth < 3 else 0.5 if depth < 6 else 0.3)):
+                    continue
             try:
-                d[k] = self.value(sub, depth + 1, version)
+                d[k] = self._value(sub, depth + 1, version)
             except GenFail:
                 if k in req:
                     raise
@@ -520,7 +533,10 @@ def object_sites(raw, doc, root="map.json"):
             elif isinstance(sub.get("items"), dict) and isinstance(sub["items"].get("$ref"), str):
                 tf = sub["items"]["$ref"]
             else:
-                for comb in ("allOf", "oneOf", "anyOf"):
+                # objects below oneOf/anyOf (CLASS/STYLE SYMBOL as an inline object) are not fault sites:
+                # the parser stores inline symbols under "symbols", and jsonschema folds their errors
+                # into one oneOf error on the enclosing keyword
+                for comb in ("allOf",):
                     for m in sub.get(comb, []):
                         if isinstance(m, dict) and isinstance(m.get("$ref"), str) and is_block(raw[m["$ref"]]):
                             tf = m["$ref"]
@@ -558,7 +574,7 @@ def inject(gen, raw, doc, kind, rng, root="map.json"):
             return dict(kind=kind, path=path, key=None, names=obj.get("__type__"), object_level=True, in_list=False)
         if kind == "required":
             req = raw[fn].get("required", [])
-            if not req:
+            if not req or req[0] not in obj:
                 continue
             del obj[req[0]]
             return dict(kind=kind, path=path, key=None, names=obj.get("__type__"), object_level=True, in_list=False)
